@@ -728,6 +728,26 @@ func (env *Env) trCall(e *E) Val {
 			return true
 		}()
 		return Val{S: "(unbox_Int " + x.S + ")", Sort: "Int"}
+	case "isType": // isType(x, T): interface value x holds a *T of this package
+		x := arg(0)
+		if len(e.A) != 2 || e.A[1].K != "id" || env.tpkg == nil {
+			sfail("isType(x, TypeName)")
+		}
+		obj := env.tpkg.Scope().Lookup(e.A[1].S)
+		if obj == nil {
+			sfail("isType: unknown type %s", e.A[1].S)
+		}
+		k := types.NewPointer(obj.Type()).String()
+		id, ok := m.ifaceTags[k]
+		if !ok {
+			id = len(m.ifaceTags) + 1
+			m.ifaceTags[k] = id
+		}
+		if !m.extraSeen["(declare-fun ifacetag (Int) Int)"] {
+			m.extraSeen["(declare-fun ifacetag (Int) Int)"] = true
+			m.extraDecl = append(m.extraDecl, "(declare-fun ifacetag (Int) Int)")
+		}
+		return Val{S: fmt.Sprintf("(= (ifacetag %s) %d)", x.S, id), Sort: "Bool"}
 	case "cast": // cast(x, T): x viewed as a pointer to the package type T
 		x := arg(0)
 		if len(e.A) != 2 || e.A[1].K != "id" || env.tpkg == nil {
